@@ -91,6 +91,13 @@ spec fn prod_step<E>(a: Shared<E>, b: Shared<E>, log0: Seq<u64>, log1: Seq<u64>)
     ||| (b == a && log1 == log0)
     ||| (b.waker.is_none() && log1 == log_after(log0, a.waker_id()))
 }
+/// A fingerprint of the shared state (uninterpreted: equal states have equal fingerprints, nothing else is known).
+pub uninterp spec fn fp<E>(s: &Shared<E>) -> int;
+/// C10: every wake-up this call issued saw the shared state the call leaves behind - a wake-up is never issued BEFORE the
+/// state it announces is in place (the system step `prod_step` below treats 'critical section, then wake' as one step).
+spec fn wakes_see<E>(seen0: Seq<int>, seen1: Seq<int>, fin: &Shared<E>) -> bool {
+    seen1.len() >= seen0.len() && forall|i: int| seen0.len() <= i < seen1.len() ==> #[trigger] seen1[i] == fp(fin)
+}
 spec fn log_after(old_log: Seq<u64>, taken: Option<u64>) -> Seq<u64> {
     match taken { Some(id) => old_log.push(id), None => old_log }
 }
@@ -189,20 +196,21 @@ impl<D: ChunkData, E> Writer<D, E> {
     //@body
     //@end
 
-    //@fn src/chunker.rs :: impl Writer :: fn abort add=log props=C10,C11 rules=R4,R6,STD
-    fn abort(&mut self, error: E, log: &mut Ghost<Seq<u64>>)
+    //@fn src/chunker.rs :: impl Writer :: fn abort add=log,seen props=C10,C11 rules=R4,R6,STD
+    fn abort(&mut self, error: E, log: &mut Ghost<Seq<u64>>, seen: &mut Ghost<Seq<int>>)
         requires old(self).shared.wf(),
         ensures
             /*@C11 #abort_sets_error*/ old(self).shared.is_ok() ==> (final(self).shared.state matches SharedState::Err(e) && e == error),
             /*@C11 #abort_noop_unless_ok*/ !old(self).shared.is_ok() ==> final(self).shared == old(self).shared && final(log)@ == old(log)@,
             /*@C10,C11 #abort_wakes*/ old(self).shared.is_ok() ==> (final(self).shared.waker.is_none() && final(log)@ == log_after(old(log)@, old(self).shared.waker_id())),
             /*@C10 #abort_prod_rel*/ prod_step(old(self).shared, final(self).shared, old(log)@, final(log)@),
+            /*@C10 #abort_wakes_after_publishing*/ wakes_see(old(seen)@, final(seen)@, &final(self).shared),
             /*@C11 #abort_frame*/ final(self).buf == old(self).buf && final(self).cap == old(self).cap && final(self).shared.wf(),
     //@body
     //@end
 
-    //@fn src/chunker.rs :: impl Writer :: fn flush_helper add=log props=C08,C09,C10,C11 implicit=C08 rules=R4,R6,STD
-    fn flush_helper(&mut self, dropping: bool, log: &mut Ghost<Seq<u64>>) -> (r: Result<(), ()>)
+    //@fn src/chunker.rs :: impl Writer :: fn flush_helper add=log,seen props=C08,C09,C10,C11 implicit=C08 rules=R4,R6,STD
+    fn flush_helper(&mut self, dropping: bool, log: &mut Ghost<Seq<u64>>, seen: &mut Ghost<Seq<int>>) -> (r: Result<(), ()>)
         requires old(self).wf_full_ok(), old(self).fits(0),
         ensures
             /*@C08,C10,C11 #fh_wf*/ (!dropping ==> final(self).wf_full_ok()) && ((old(self).shared.is_ok() && !dropping) ==> final(self).wf()) && final(self).cap == old(self).cap && final(self).shared.wf(),
@@ -217,12 +225,13 @@ impl<D: ChunkData, E> Writer<D, E> {
             /*@C11 #fh_error_when_reader_gone*/ (!old(self).shared.is_ok() && old(self).buf@.len() > 0) ==> r.is_err(),
             /*@C11 #fh_dead_frame*/ !old(self).shared.is_ok() ==> (final(self).shared == old(self).shared && final(log)@ == old(log)@ && final(self).buf == old(self).buf),
             /*@C10 #fh_prod_rel*/ prod_step(old(self).shared, final(self).shared, old(log)@, final(log)@),
+            /*@C10 #fh_wakes_after_publishing*/ wakes_see(old(seen)@, final(seen)@, &final(self).shared),
     //@body
     //@ at_start: proof { if old(self).shared.is_ok() { lemma_push(old(self).shared.queue(), old(self).buf); } }
     //@end
 
-    //@fn src/chunker.rs :: impl Write for Writer :: fn flush add=log props=C08,C09,C10,C11 implicit=C08 rules=R6,R7,STD
-    fn flush(&mut self, log: &mut Ghost<Seq<u64>>) -> (r: io::Result<()>)
+    //@fn src/chunker.rs :: impl Write for Writer :: fn flush add=log,seen props=C08,C09,C10,C11 implicit=C08 rules=R6,R7,STD
+    fn flush(&mut self, log: &mut Ghost<Seq<u64>>, seen: &mut Ghost<Seq<int>>) -> (r: io::Result<()>)
         requires old(self).wf_full_ok(), old(self).fits(0),
         ensures
             /*@C08,C11 #flush_wf*/ final(self).wf_full_ok() && (old(self).shared.is_ok() ==> final(self).wf()) && final(self).cap == old(self).cap,
@@ -232,12 +241,13 @@ impl<D: ChunkData, E> Writer<D, E> {
             /*@C10 #flush_wakes*/ (old(self).shared.is_ok() && old(self).buf@.len() > 0) ==> (final(self).shared.waker.is_none() && final(log)@ == log_after(old(log)@, old(self).shared.waker_id())),
             /*@C11 #flush_error_when_reader_gone*/ (!old(self).shared.is_ok() && old(self).buf@.len() > 0) ==> r.is_err(),
             /*@C10 #flush_prod_rel*/ prod_step(old(self).shared, final(self).shared, old(log)@, final(log)@),
+            /*@C10 #flush_wakes_after_publishing*/ wakes_see(old(seen)@, final(seen)@, &final(self).shared),
     //@body
     //@ at_start: proof { if old(self).buf@.len() > 0 { lemma_push(old(self).shared.queue(), old(self).buf); } }
     //@end
 
-    //@fn src/chunker.rs :: impl Write for Writer :: fn write add=log props=C08,C09,C10,C11 implicit=C08 rules=R5,R6,R18,STD
-    fn write(&mut self, buf: &[u8], log: &mut Ghost<Seq<u64>>) -> (r: io::Result<usize>)
+    //@fn src/chunker.rs :: impl Write for Writer :: fn write add=log,seen props=C08,C09,C10,C11 implicit=C08 rules=R5,R6,R18,STD
+    fn write(&mut self, buf: &[u8], log: &mut Ghost<Seq<u64>>, seen: &mut Ghost<Seq<int>>) -> (r: io::Result<usize>)
         requires old(self).wf(), old(self).fits(buf@.len()),
         ensures
             /*@C08,C11 #write_wf*/ final(self).wf_full_ok() && (r.is_ok() ==> final(self).wf()) && final(self).cap == old(self).cap,
@@ -245,18 +255,21 @@ impl<D: ChunkData, E> Writer<D, E> {
                 && flat(final(self).shared.queue()) + final(self).buf@ =~= flat(old(self).shared.queue()) + old(self).buf@ + buf@.subrange(0, k as int)),
             /*@C08,C09 #write_progress*/ r matches Ok(k) ==> (buf@.len() > 0 ==> k > 0),
             /*@C08,C09 #write_live_never_fails*/ old(self).shared.is_ok() ==> r.is_ok(),
+            /*@C10 #write_prod_rel*/ prod_step(old(self).shared, final(self).shared, old(log)@, final(log)@),
+            /*@C10 #write_wakes_after_publishing*/ wakes_see(old(seen)@, final(seen)@, &final(self).shared),
             /*@C11 #write_error_when_chunk_completes_and_reader_gone*/ (!old(self).shared.is_ok() && cap_of(&old(self).buf) != 0 && old(self).buf@.len() + buf@.len() >= cap_of(&old(self).buf)) ==> r.is_err(),
     //@body
     //@end
 
-    //@fn src/chunker.rs :: impl Drop for Writer :: fn drop add=log props=C08,C09,C10 implicit=C08 rules=R6,STD
-    fn drop(&mut self, log: &mut Ghost<Seq<u64>>)
+    //@fn src/chunker.rs :: impl Drop for Writer :: fn drop add=log,seen props=C08,C09,C10 implicit=C08 rules=R6,STD
+    fn drop(&mut self, log: &mut Ghost<Seq<u64>>, seen: &mut Ghost<Seq<int>>)
         requires old(self).wf_full_ok(), old(self).fits(0),
         ensures
             /*@C08,C09 #drop_flushes_and_marks_end*/ old(self).shared.is_ok() ==> (final(self).shared.is_ok() && final(self).shared.wdropped()
                 && flat(final(self).shared.queue()) =~= flat(old(self).shared.queue()) + old(self).buf@),
             /*@C10 #drop_wakes*/ old(self).shared.is_ok() ==> (final(self).shared.waker.is_none() && final(log)@ == log_after(old(log)@, old(self).shared.waker_id())),
             /*@C10 #drop_prod_rel*/ prod_step(old(self).shared, final(self).shared, old(log)@, final(log)@),
+            /*@C10 #drop_wakes_after_publishing*/ wakes_see(old(seen)@, final(seen)@, &final(self).shared),
     //@body
     //@ at_start: proof { if old(self).buf@.len() > 0 { lemma_push(old(self).shared.queue(), old(self).buf); } }
     //@end
